@@ -549,7 +549,11 @@ func (i *ICMPv6Options) DecodeFromBytes(data []byte, df gopacket.DecodeFeedback)
 // SerializationBuffer, implementing gopacket.SerializableLayer.
 // See the docs for gopacket.SerializableLayer for more info.
 func (i *ICMPv6Options) SerializeTo(b gopacket.SerializeBuffer, opts gopacket.SerializeOptions) error {
-	for _, opt := range []ICMPv6Option(*i) {
+	// Every option is prepended, so walk the list backwards to keep its order
+	// on the wire.
+	options := []ICMPv6Option(*i)
+	for j := len(options) - 1; j >= 0; j-- {
+		opt := options[j]
 		length := len(opt.Data) + 2
 		buf, err := b.PrependBytes(length)
 		if err != nil {
